@@ -116,12 +116,16 @@ MUTANTS = {
 
 def main():
     prop = sys.argv[1]
-    sub = sys.argv[2] if len(sys.argv) > 2 else ''
+    args = [a for a in sys.argv[2:] if not a.startswith('--')]
+    limit = int(sys.argv[sys.argv.index('--limit') + 1]) if '--limit' in sys.argv else 10**6
+    sub = args[0] if args and args[0] != str(limit) else ''
     here = os.path.dirname(os.path.abspath(__file__))
     table = []
     for name, rel, old, new in MUTANTS.get(prop, []):
         if sub not in name:
             continue
+        if len(table) >= limit:
+            break
         tmp = tempfile.mkdtemp(prefix='pyvc-mut-')
         try:
             shutil.copytree('/repo/dashlive', os.path.join(tmp, 'dashlive'))
